@@ -1,0 +1,33 @@
+//go:build verif
+
+package gateway
+
+import "go.sia.tech/core/types"
+
+// This file exists only under the "verif" build tag. It exposes the unexported
+// codec methods of RPC objects and block outlines to the verification harness
+// in /verif. It adds no behaviour: every function forwards to the original.
+
+// VerifEncodeRequest forwards to o.encodeRequest.
+func VerifEncodeRequest(o Object, e *types.Encoder) { o.encodeRequest(e) }
+
+// VerifDecodeRequest forwards to o.decodeRequest.
+func VerifDecodeRequest(o Object, d *types.Decoder) { o.decodeRequest(d) }
+
+// VerifMaxRequestLen forwards to o.maxRequestLen.
+func VerifMaxRequestLen(o Object) int { return o.maxRequestLen() }
+
+// VerifEncodeResponse forwards to o.encodeResponse.
+func VerifEncodeResponse(o Object, e *types.Encoder) { o.encodeResponse(e) }
+
+// VerifDecodeResponse forwards to o.decodeResponse.
+func VerifDecodeResponse(o Object, d *types.Decoder) { o.decodeResponse(d) }
+
+// VerifMaxResponseLen forwards to o.maxResponseLen.
+func VerifMaxResponseLen(o Object) int { return o.maxResponseLen() }
+
+// VerifEncodeOutline forwards to V2BlockOutline.encodeTo.
+func VerifEncodeOutline(bo *V2BlockOutline, e *types.Encoder) { bo.encodeTo(e) }
+
+// VerifDecodeOutline forwards to V2BlockOutline.decodeFrom.
+func VerifDecodeOutline(bo *V2BlockOutline, d *types.Decoder) { bo.decodeFrom(d) }
